@@ -23,8 +23,24 @@ Reading (how the words of the property are taken; the oracle below implements ex
   signature starts at 0 (or the part has none: 4/4), no time-signature or quarter-duration change
   inside the first beat, and the timeline is at least one beat long.  A non-integral corrected start
   may be rounded either way.  Elsewhere only the end (and everything about later measures) is judged.
+* the three measure maps speak of one "measure containing t": where measure_map places t in a measure, the number map
+  reports that measure's number and the metrical map the distance from that start; where measure_map has none (before
+  the pickup-corrected start of the first measure) the number map has none either (clause `measure-consistency`).
 * a measure without a number has no number to report: not judged.
 * scalar/array agreement: f(x) for a Python int, f(np.array(xs)) and f(list(xs)) give the same rows.
+* "every part": a part is what its edit history left on the timeline.  The maps are views of the part as it is NOW:
+  after any history of add / remove / set_quarter_duration / use_musical_beat / use_notated_beat /
+  set_musical_beat_per_ts calls, interleaved with queries of the maps, every map equals the map of a part freshly
+  built from the elements that are on the timeline (with their current musical_beats and the current beat mode).
+  The musical beats of a time signature are those stored on it (default table 6->2, 9->3, 12->4; the table handed to
+  use_musical_beat / set_musical_beat_per_ts for the signatures on the timeline at that moment; use_notated_beat
+  resets them) - the harness simulates this documented rule in plain Python.
+* a clef without a line (MusicXML percussion / TAB clefs carry none) is reported with line 0 (repaired, C10-11).
+* outside the quantifier (compared with the model, never judged): unknown mode / clef sign, a time signature with
+  0 beats, a clef that belongs to no staff (staff=None: no importer produces one; not generated), two consecutive
+  measures without a number (the code back-fills one step; every importer numbers its measures).
+* not covered: attributes of elements changed in place after a query (`note.staff = 3`): Part.number_of_staves is a
+  cache that only add/remove invalidate (upstream design; a history of add/remove/switch calls is what is generated).
 """
 import json
 import math
@@ -37,16 +53,22 @@ from core import Eval
 
 PROPERTY = "C10"
 DRIVER = "drv_c10"
-PROPS = ["PartituraModel.Props.C10"]
+PROPS = ["PartituraModel.Props.C10", "PartituraModel.Props.C10Part", "PartituraModel.Props.C10Timeline"]
 TRUSTED = [
     "scipy.interpolate.interp1d(kind='previous', fill_value='extrapolate'): index = #{x_i <= q} clipped to 1..n, "
     "NaN below the first sample (modelled by lastLE; exercised at positions before the first sample)",
     "scipy PPoly([[1..],[0..]], barlines): x - (start of the interval holding x), first/last interval outside",
-    "Part.iter_all yields elements in time order (the tables reach scipy already sorted; argsort is the identity)",
-    "divs_per_beat = inv_beat_map(1 + beat_map(0)) is an input of the measure model, taken from the implementation "
-    "(the beat maps are property C02); the oracle recomputes it as quarter_duration*4/beat_type where unambiguous",
+    "Part.iter_all yields the elements of a class in time order: no longer assumed silently - the start times the real "
+    "iter_all delivers are handed to the model's `sortedTimes` (observation `sorted`), `sorted_check_sound` shows that this "
+    "check is exactly the hypothesis of lookup_spec, and `tables_sorted_any_history` derives it for every valid edit "
+    "history from C01's iterAll_correct over Model/Timeline.lean; what remains trusted is that the rows the harness "
+    "simulates from the case description (stable order of coincident elements: insertion order, re-added elements last) "
+    "are the rows the property builds - the independent oracle compares them with iter_all as multisets",
+    "scipy.interpolate.interp1d(kind='linear') of the beat maps as modelled in Model/TimeMap.lean (property C02)",
     "NaN -> int64 conversion yields INT64_MIN on this platform (printed as `nan` on both sides)",
-    "binary64 arithmetic on the generated domain (integer times, power-of-two beat types) is exact",
+    "binary64 arithmetic: the model is exact; divs_per_beat / beats_per_bar are compared within 1e-9; a case whose "
+    "corrected start is within 1e-6 of a rounding tie, or whose `1 + beat_map(0)` is within 1e-9 of the end of the beat "
+    "map's range, is not compared for the three measure maps (counted in the distribution)",
 ]
 PARTIAL = [
     "scalar/array/list agreement of the implementation is compared (oracle), the theorem is about the model's vec",
@@ -54,22 +76,31 @@ PARTIAL = [
     "elements lookup_spec states that the value of one of the rows in force is returned",
     "measure_spec/number_spec assume measures in time order without overlap (gaps allowed); the length component of "
     "metrical_spec assumes they tile (metrical_position_no_tiling gives the position component without that)",
-    "pickup correction is specified relative to the time signature and beat length at time 0 (as the code measures them); "
-    "divs_per_beat is a parameter of the model",
+    "pickup_spec_composed gives the closed form (full bar = beats * 4/beat_type quarters at the quarter duration in force "
+    "at 0, in both beat modes) under the side condition that no key point of the beat map lies inside the first beat and "
+    "the timeline is at least one beat long; without it divs_per_beat_spec still characterises divs_per_beat as the "
+    "position one beat after position 0",
+    "histories: the Lean model is a function of the part description; that a history leaves exactly the simulated "
+    "description is checked by the oracle (fresh build) and, for the timeline itself, is property C01",
     "agreement of the note-array columns with the maps is compared on the implementation, not proved",
 ]
 RULE = ("two structured generators over abstract parts built through Part.add/set_quarter_duration: 'musical' "
         "(tiling measures from a sequence of time signatures, optional pickup, irregular bars, late first signature/"
-        "key/clef, staves without clef, missing key mode, missing measure numbers) and 'adversarial' (elements at "
-        "arbitrary integer times, gaps before the first element, no measures / one measure / gaps between measures, "
-        "coincident elements, malformed mode or clef sign); every map is queried at every integer position of the "
-        "timeline (plus 2 before and after) as scalar, ndarray and list; distinct = distinct part description; "
-        "non-trivial = the part has at least one element")
-LEVEL_TEXT = ("Lean 4 theorems over an executable model of the six maps (all tables, all positions, by induction on the "
-              "table) tied to the code by a differential run over generated parts (scalar and vector calls, note-array "
-              "columns) and the regenerated MUSICAL_BEATS / CLEF_TO_INT tables.")
+        "key/clef, staves without clef, missing key mode, missing measure numbers, clefs without line) and 'adversarial' "
+        "(elements at arbitrary integer times, gaps before the first element, no measures / one measure / gaps between "
+        "measures, coincident elements, malformed mode or clef sign, 0 beats); 40% of the cases continue with an edit "
+        "history (queries of all maps, removal and re-adding of any element, use_musical_beat with default and custom "
+        "tables, use_notated_beat, set_musical_beat_per_ts, set_quarter_duration) and are compared with a fresh build of "
+        "what is left; every map is queried at every integer position of the timeline (plus 2 before and after) as "
+        "scalar, ndarray and list; distinct = distinct part description; non-trivial = the part has at least one element")
+LEVEL_TEXT = ("Lean 4 theorems over an executable model of the six maps as functions of the part description alone (all "
+              "tables, all positions, by induction on the table; the pickup rule composed with C02's beat-map model, the "
+              "table order derived from C01's timeline model for every edit history) tied to the code by a differential "
+              "run over generated parts and edit histories (scalar and vector calls, divs_per_beat, note-array columns, "
+              "iter_all order) and the regenerated MUSICAL_BEATS / CLEF_TO_INT tables.")
 
 INT_MIN = -(2 ** 63)
+GEN_LINE_NONE = True  # clefs without a line (repaired by fixes/C10-11)
 CLEF_CODE = {"G": 0, "F": 1, "C": 2, "percussion": 3, "TAB": 4, "jianpu": 5, "none": 6}
 MODES = ["major", "minor", None, "none", 1, -1]
 SIGNS = ["G", "F", "C", "percussion", "TAB", "jianpu", "none"]
@@ -124,7 +155,7 @@ def gen_musical(rng):
         ct = rng.choice([offset, offset, rng.randint(offset, end)])
         st = rng.randint(1, nst)
         if all((c[0], c[1]) != (ct, st) for c in clefs):
-            clefs.append([ct, st, rng.choice(SIGNS), rng.randint(0, 5), rng.choice([None, 0, 0, 1, -1, 2])])
+            clefs.append([ct, st, rng.choice(SIGNS), rng.choice([None, 0, 1, 2, 3, 4, 5]), rng.choice([None, 0, 0, 1, -1, 2])])
     for j in range(rng.choice([0, 1, 2, 4, 6])):
         nt = rng.randint(offset, max(offset, end - 1))
         notes.append([nt, rng.randint(1, max(1, q0)), rng.choice([None, 1, rng.randint(1, nst + 1)]), rng.choice([None, 1, 2])])
@@ -158,7 +189,7 @@ def gen_adversarial(rng):
     for _ in range(rng.choice([0, 0, 1, 2, 3, 5])):
         t, st = rng.choice([g, rt(), rt()]), rng.randint(1, nst)
         if dup or all((e[0], e[1]) != (t, st) for e in clefs):
-            clefs.append([t, st, rng.choice(SIGNS), rng.randint(0, 6), rng.choice([None, 0, 1, -1, -2])])
+            clefs.append([t, st, rng.choice(SIGNS), rng.choice([None, 0, 1, 2, 3, 4, 5, 6]), rng.choice([None, 0, 1, -1, -2])])
     mode = rng.choice(["none", "one", "tile", "tile", "tile", "gaps"])
     if mode == "one":
         s = rt()
@@ -188,7 +219,71 @@ def gen_adversarial(rng):
         d["ks"][rng.randrange(len(d["ks"]))][2] = rng.choice(["dorian", 0, "Major"])
     elif r < 0.06 and d["clefs"]:
         d["clefs"][rng.randrange(len(d["clefs"]))][2] = rng.choice(["g", "X"])
+    elif r < 0.08 and d["ts"]:
+        d["ts"][rng.randrange(len(d["ts"]))][1] = 0  # ZeroDivisionError of the musical beat map
     return d
+
+
+KINDS = ["ts", "ks", "clefs", "ms", "notes", "words", "dirs"]
+MAPS = ("time_signature_map", "key_signature_map", "clef_map", "measure_map", "measure_number_map",
+        "metrical_position_map")
+
+
+def gen_table(rng, d):
+    """a table for use_musical_beat / set_musical_beat_per_ts: mostly signatures of the part"""
+    tbl = {}
+    sigs = [(e[1], e[2]) for e in d["ts"]] + [(6, 8), (4, 4)]
+    for b, bt in rng.sample(sigs, min(len(sigs), rng.randint(0, 2))):
+        if b >= 1:
+            divisors = [k for k in range(1, b + 1) if b % k == 0]
+            tbl["%d/%d" % (b, bt)] = rng.choice(divisors + [rng.randint(1, b + 1)])
+    return tbl
+
+
+def gen_history(rng, d):
+    """edits and queries after the part was built; indices refer to the lists of the description"""
+    hist = []
+    removed = []
+    elems = [(k, i) for k in KINDS for i in range(len(d.get(k, [])))]
+    tmax = max([1] + [e[0] for k in KINDS for e in d.get(k, [])] + [m[1] for m in d["ms"]])
+    def extent(k, i):
+        e = d[k][i]
+        return e[0], (e[1] if k == "ms" else e[0] + e[1] if k == "notes" else e[0])
+
+    for _ in range(rng.randint(1, 6)):
+        r = rng.random()
+        if r < 0.12 and elems:
+            # make the timeline shrink: remove everything that touches its first (or last) time point
+            alive = [x for x in elems if x not in removed]
+            if alive:
+                edge = min(extent(*x)[0] for x in alive) if rng.random() < 0.5 else max(extent(*x)[1] for x in alive)
+                for x in alive:
+                    if edge in extent(*x):
+                        hist.append(["rm", x[0], x[1]])
+                        removed.append(x)
+                hist.append(["q"])
+        elif r < 0.30:
+            hist.append(["q"])
+        elif r < 0.60 and elems:
+            k, i = rng.choice(elems)
+            if (k, i) in removed:
+                continue
+            hist.append(["rm", k, i])
+            removed.append((k, i))
+        elif r < 0.70 and removed:
+            k, i = removed.pop(rng.randrange(len(removed)))
+            hist.append(["add", k, i])
+        elif r < 0.82:
+            hist.append(["mus", gen_table(rng, d) if rng.random() < 0.6 else {}])
+        elif r < 0.90:
+            hist.append(["not"])
+        elif r < 0.95:
+            hist.append(["setmb", gen_table(rng, d)])
+        else:
+            hist.append(["qd", rng.randint(0, tmax), rng.choice([1, 2, 3, 4, 6, 8, 12])])
+    if hist and hist[0] != ["q"] and rng.random() < 0.7:
+        hist.insert(0, ["q"])  # stale state needs a query before the edit
+    return hist
 
 
 def cases(rng, tier):
@@ -204,6 +299,12 @@ def cases(rng, tier):
             if nobj >= 2:
                 d["warm"] = rng.randint(1, nobj - 1)
                 d["rev"] = d.get("rev") or rng.random() < 0.6  # adding from the end makes the timeline grow to the left
+        if not GEN_LINE_NONE:
+            for c in d["clefs"]:
+                if c[3] is None:
+                    c[3] = 0
+        if rng.random() < 0.4:
+            d["hist"] = gen_history(rng, d)
         yield d
 
 
@@ -215,37 +316,156 @@ def build(desc):
     for t, q in desc.get("qd", []):
         part.set_quarter_duration(t, q)
     objs = []
-    for t, b, bt in desc["ts"]:
-        objs.append((t, None, S.TimeSignature(b, bt)))
-    for t, f, m in desc["ks"]:
-        objs.append((t, None, S.KeySignature(f, m)))
-    for t, st, sg, ln, oc in desc["clefs"]:
-        objs.append((t, None, S.Clef(st, sg, ln, oc)))
-    for s, e, num in desc["ms"]:
-        objs.append((s, e, S.Measure(num)))
-    for i, (t, dur, st, vc) in enumerate(desc["notes"]):
-        objs.append((t, t + dur, S.Note("CDEFGAB"[i % 7], 4, 0, id="n%d" % i, voice=vc, staff=st)))
-    for t, st in desc.get("words", []):
-        objs.append((t, None, S.Words("w", staff=st)))
-    for t, st in desc.get("dirs", []):
-        objs.append((t, None, S.LoudnessDirection("f", staff=st)))
+    for i, e in enumerate(desc["ts"]):
+        o = S.TimeSignature(e[1], e[2])
+        if len(e) > 3:
+            o.musical_beats = e[3]  # a description of a part's current state carries the stored musical beats
+        objs.append((e[0], None, o, ("ts", i)))
+    for i, (t, f, m) in enumerate(desc["ks"]):
+        objs.append((t, None, S.KeySignature(f, m), ("ks", i)))
+    for i, (t, st, sg, ln, oc) in enumerate(desc["clefs"]):
+        objs.append((t, None, S.Clef(st, sg, ln, oc), ("clefs", i)))
+    for i, (s, e, num) in enumerate(desc["ms"]):
+        objs.append((s, e, S.Measure(num), ("ms", i)))
+    for i, n in enumerate(desc["notes"]):
+        t, dur, st, vc = n[:4]
+        nid = n[4] if len(n) > 4 else "n%d" % i
+        objs.append((t, t + dur, S.Note("CDEFGAB"[i % 7], 4, 0, id=nid, voice=vc, staff=st), ("notes", i)))
+    for i, (t, st) in enumerate(desc.get("words", [])):
+        objs.append((t, None, S.Words("w", staff=st), ("words", i)))
+    for i, (t, st) in enumerate(desc.get("dirs", [])):
+        objs.append((t, None, S.LoudnessDirection("f", staff=st), ("dirs", i)))
+    where = {key: (t, e, o) for t, e, o, key in objs}
     if desc.get("rev"):
         objs.sort(key=lambda o: -o[0])  # stable: coincident elements keep their relative order
+
+    def query():
+        # the maps are views of the part as it is NOW: querying them and then going on editing must not leave
+        # anything stale behind
+        for nm in MAPS:
+            try:
+                getattr(part, nm)(0)
+            except Exception:
+                pass
+
     warm = desc.get("warm")
-    for k, (t, e, o) in enumerate(objs):
+    for k, (t, e, o, _) in enumerate(objs):
         if warm is not None and k == warm:
-            # the maps are views of the part as it is NOW: querying them while the part is half built and then
-            # going on editing must not leave anything stale behind
-            for nm in ("time_signature_map", "key_signature_map", "clef_map", "measure_map", "measure_number_map",
-                       "metrical_position_map"):
-                try:
-                    getattr(part, nm)(0)
-                except Exception:
-                    pass
+            query()
         part.add(o, t, e)
     if desc.get("musical_mode"):
         part.use_musical_beat()
+    live = set(where)
+    for op in desc.get("hist", []):
+        if op[0] == "q":
+            query()
+        elif op[0] == "rm":
+            key = (op[1], op[2])
+            if key in live:
+                part.remove(where[key][2])
+                live.discard(key)
+        elif op[0] == "add":
+            key = (op[1], op[2])
+            if key in where and key not in live:
+                t, e, o = where[key]
+                part.add(o, t, e)
+                live.add(key)
+        elif op[0] == "mus":
+            part.use_musical_beat(dict(op[1]))
+        elif op[0] == "not":
+            part.use_notated_beat()
+        elif op[0] == "setmb":
+            part.set_musical_beat_per_ts(dict(op[1]))
+        elif op[0] == "qd":
+            part.set_quarter_duration(op[1], op[2])
     return part
+
+
+# ------------------------------------------------------------------ the part a history leaves (plain Python simulation)
+def qd_set(table, t, q):
+    """set_quarter_duration as documented: replace an entry stored at t, add one unless it is redundant"""
+    i = sum(1 for e in table if e[0] < t)
+    if i < len(table) and table[i][0] == t:
+        table[i] = [t, q]
+    elif i == 0 or table[i - 1][1] != q:
+        table.insert(i, [t, q])
+
+
+def final_state(desc):
+    """the description of the part as the history leaves it: elements on the timeline in iteration order (time, then
+    order of insertion; a re-added element is the latest), the musical beats stored on the signatures, the beat mode,
+    the quarter-duration table"""
+    recs = {}
+    for k in KINDS:
+        recs[k] = []
+        for i, e in enumerate(desc.get(k, [])):
+            r = {"e": list(e), "seq": i, "live": True}
+            if k == "ts":
+                r["mb"] = e[3] if len(e) > 3 else musical_beats(e[1])
+            if k == "notes":
+                r["id"] = e[4] if len(e) > 4 else "n%d" % i
+            recs[k].append(r)
+    table = [[0, desc["q0"]]]
+    for t, q in desc.get("qd", []):
+        qd_set(table, t, q)
+    musical = bool(desc.get("musical_mode"))
+    seq = 10 ** 6
+
+    def setmb(tbl):
+        for r in recs["ts"]:
+            if r["live"]:
+                key = "%d/%d" % (r["e"][1], r["e"][2])
+                r["mb"] = tbl[key] if key in tbl else musical_beats(r["e"][1])
+
+    for op in desc.get("hist", []):
+        if op[0] == "rm":
+            if op[2] < len(recs[op[1]]):
+                recs[op[1]][op[2]]["live"] = False
+        elif op[0] == "add":
+            if op[2] < len(recs[op[1]]) and not recs[op[1]][op[2]]["live"]:
+                seq += 1
+                recs[op[1]][op[2]].update(live=True, seq=seq)
+        elif op[0] == "mus":
+            if not musical:
+                musical = True
+                if op[1]:
+                    setmb(op[1])
+        elif op[0] == "not":
+            if musical:
+                musical = False
+                setmb({})
+        elif op[0] == "setmb":
+            setmb(op[1])
+        elif op[0] == "qd":
+            qd_set(table, op[1], op[2])
+    L = {"q0": table[0][1], "qd_table": table, "musical": musical}
+    for k in KINDS:
+        rows = sorted((r for r in recs[k] if r["live"]), key=lambda r: (r["e"][0], r["seq"]))
+        if k == "ts":
+            L[k] = [r["e"][:3] + [r["mb"]] for r in rows]
+        elif k == "notes":
+            L[k] = [r["e"][:4] + [r["id"]] for r in rows]
+        else:
+            L[k] = [r["e"] for r in rows]
+    times = set()
+    for k in KINDS:
+        for e in L[k]:
+            times.add(e[0])
+    for m in L["ms"]:
+        times.add(m[1])
+    for n in L["notes"]:
+        times.add(n[0] + n[1])
+    L["times"] = sorted(times)
+    return L
+
+
+def fresh_desc(L):
+    """a description whose plain build is the part `L` describes"""
+    d = {"gen": "fresh", "q0": L["q0"], "qd": [list(e) for e in L["qd_table"][1:]], "rev": False,
+         "musical_mode": L["musical"]}
+    for k in KINDS:
+        d[k] = [list(e) for e in L[k]]
+    return d
 
 
 # ------------------------------------------------------------------ canonical forms of the implementation's answers
@@ -335,25 +555,28 @@ def mode_code(m):
     return -1 if m in ("minor", -1) else 1
 
 
-def expected_first_start(desc, first_t, last_t):
+def expected_first_start(L, first_t, last_t):
     """pickup-corrected start of the first measure: a set of acceptable integers, or None = not judged"""
-    s0, e0 = desc["ms"][0][0], desc["ms"][0][1]
+    s0, e0 = L["ms"][0][0], L["ms"][0][1]
     if first_t != 0:
         return None
-    ts = desc["ts"]
+    ts = L["ts"]
     if ts:
         at0 = [e for e in ts if e[0] == 0]
         if len(at0) != 1:
             return None
-        beats0, bt0 = at0[0][1], at0[0][2]
+        beats0, bt0, mb0 = at0[0][1], at0[0][2], at0[0][3]
     else:
-        beats0, bt0 = 4, 4
-    d = Fraction(desc["q0"] * 4, bt0)
-    if any(0 < e[0] < d for e in ts) or any(0 < t < d for t, _ in desc.get("qd", [])):
+        beats0, bt0, mb0 = 4, 4, 4
+    if beats0 < 1 or mb0 < 1:
         return None
-    if any(t == 0 for t, _ in desc.get("qd", [])):
+    table = L["qd_table"]
+    d = Fraction(table[0][1] * 4, bt0)
+    # the stretch the code measures: one beat from time 0 - a notated beat, or a musical beat when those are in use
+    reach = max(d, d * beats0 / mb0) if L["musical"] else d
+    if any(0 < e[0] < reach for e in ts) or any(0 < t < reach for t, _ in table):
         return None
-    if last_t < d:
+    if last_t < reach:
         return None
     full = beats0 * d
     if e0 - s0 < full:
@@ -363,8 +586,9 @@ def expected_first_start(desc, first_t, last_t):
 
 
 def valid_desc(desc):
-    """inside the property's quantifier: known modes and clef signs"""
-    return all(k[2] in MODES for k in desc["ks"]) and all(c[2] in CLEF_CODE for c in desc["clefs"])
+    """inside the property's quantifier: known modes and clef signs, at least one beat per bar"""
+    return all(k[2] in MODES for k in desc["ks"]) and all(c[2] in CLEF_CODE for c in desc["clefs"]) \
+        and all(e[1] >= 1 for e in desc["ts"])
 
 
 def measures_ok(desc):
@@ -430,6 +654,30 @@ def query_all(getmap, xs, canon0):
     return sc, vec, r, None
 
 
+def part_token(L):
+    """the model's input: the part description (not a number computed by the implementation)"""
+    times = L["times"]
+    span_tok = "-" if not times else "%d %d" % (times[0], times[-1])
+    return " ".join([
+        "%d" % len(times), span_tok,
+        W.lst(lambda e: "%d %d" % (e[0], e[1]), L["qd_table"]),
+        W.lst(lambda e: "%d %d %d %d" % (e[0], e[1], e[2], e[3]), L["ts"]),
+        W.b(L["musical"]),
+        W.lst(lambda e: "%d %d %s" % (e[0], e[1], W.opt(W.i, e[2])), L["ms"])])
+
+
+def iter_rows(part, L):
+    """(kind, rows the real iter_all delivers, rows expected) for the four tables of the property"""
+    import partitura.score as S
+
+    yield "ts", [(o.start.t, o.beats, o.beat_type, o.musical_beats) for o in part.iter_all(S.TimeSignature)], \
+        [tuple(e) for e in L["ts"]]
+    yield "ks", [(o.start.t, o.fifths, o.mode) for o in part.iter_all(S.KeySignature)], [tuple(e) for e in L["ks"]]
+    yield "clefs", [(o.start.t, o.staff, o.sign, o.line, o.octave_change) for o in part.iter_all(S.Clef)], \
+        [tuple(e) for e in L["clefs"]]
+    yield "ms", [(o.start.t, o.end.t, o.number) for o in part.iter_all(S.Measure)], [tuple(e) for e in L["ms"]]
+
+
 def evaluate(desc):
     import warnings
 
@@ -440,58 +688,74 @@ def evaluate(desc):
     ev = Eval()
     orc = ev.oracle
     part = build(desc)
+    L = final_state(desc)
+    edited = bool(desc.get("hist")) or desc.get("warm") is not None
     fp, lp = part.first_point, part.last_point
-    first_t = None if fp is None else fp.t
-    last_t = None if lp is None else lp.t
-    span_tok = "-" if fp is None else "%d %d" % (first_t, last_t)
-    lo = 0 if fp is None else max(0, first_t - 2)
-    hi = 0 if fp is None else last_t + 2
+    times = L["times"]
+    first_t = times[0] if times else None
+    last_t = times[-1] if times else None
+    got_span = None if fp is None else (fp.t, lp.t)
+    want_span = None if not times else (first_t, last_t)
+    if got_span != want_span or len(part._points) != len(times):
+        orc.append("timeline: first/last point %s (%d points), the elements on the timeline span %s (%d distinct times)" % (
+            got_span, len(part._points), want_span, len(times)))
+    span_tok = "-" if not times else "%d %d" % (first_t, last_t)
+    lo = 0 if not times else max(0, first_t - 2)
+    hi = 0 if not times else last_t + 2
     xs = list(range(lo, hi + 1))
-    judged = [] if fp is None else [x for x in xs if first_t <= x <= last_t]
+    judged = [] if not times else [x for x in xs if first_t <= x <= last_t]
     xs_tok = W.lst(W.i, xs)
-    valid = valid_desc(desc)
+    valid = valid_desc(L)
+    ptok = part_token(L)
 
-    tss_tok = W.lst(lambda e: "%d %d %d" % (e[0], e[1], e[2]), desc["ts"])
-    kss_tok = W.lst(lambda e: "%d %d %s" % (e[0], e[1], W.s(e[2])), desc["ks"])
-    clefs_tok = W.lst(lambda e: "%d %d %s %d %s" % (e[0], e[1], W.s(e[2]), e[3], W.opt(W.i, e[4])), desc["clefs"])
-    others = [n[2] for n in desc["notes"] if n[2] is not None] + [w[1] for w in desc.get("words", []) if w[1] is not None] \
-        + [w[1] for w in desc.get("dirs", []) if w[1] is not None]
+    kss_tok = W.lst(lambda e: "%d %d %s" % (e[0], e[1], W.s(e[2])), L["ks"])
+    clefs_tok = W.lst(lambda e: "%d %s %s %s %s" % (e[0], W.opt(W.i, e[1]), W.s(e[2]), W.opt(W.i, e[3]), W.opt(W.i, e[4])), L["clefs"])
+    others = [n[2] for n in L["notes"] if n[2] is not None] + [w[1] for w in L["words"] if w[1] is not None] \
+        + [w[1] for w in L["dirs"] if w[1] is not None]
     others_tok = W.lst(W.i, others)
-    ms_tok = W.lst(lambda e: "%d %d" % (e[0], e[1]), desc["ms"])
-    msn_tok = W.lst(lambda e: "%d %d %s" % (e[0], e[1], W.opt(W.i, e[2])), desc["ms"])
+    staffless = any(c[1] is None for c in L["clefs"])
 
-    # divs_per_beat as the implementation computes it (input of the measure model; see TRUSTED)
-    d_tok = "-"
+    # ---- iter_all order: the tables reach the interpolators in the order iter_all yields the elements
+    for kind, got, want in iter_rows(part, L):
+        ev.requests.append("sorted " + W.lst(W.i, [r[0] for r in got]))
+        ev.impl.append("1")
+        if any(got[i][0] > got[i + 1][0] for i in range(len(got) - 1)):
+            orc.append("iter-order: iter_all(%s) is not in time order: %s" % (kind, [r[0] for r in got]))
+        if sorted(map(repr, got)) != sorted(map(repr, want)):
+            orc.append("elements: iter_all(%s) yields %s, on the timeline are (with their stored attributes) %s" % (kind, got[:6], want[:6]))
+
+    # ---- the quantities of the pickup rule (observed, no longer an input of the model)
     stable = True  # binary64 and exact evaluation of the pickup rule agree (else the measure maps are not compared)
-    if desc["ms"]:
-        dv, e = call(lambda: float(part.inv_beat_map(1 + part.beat_map(0))))
+    if L["ms"]:
+        r, e = call(lambda: (float(part.time_signature_map(0)[2 if part._use_musical_beat else 0]),
+                             float(part.beat_map(0)), float(part.inv_beat_map(1 + part.beat_map(0))),
+                             float(part.beat_map(last_t))))
         if e:
-            d_tok = "err"
-        elif dv == dv:
-            b0, e2 = call(lambda: float(part.time_signature_map(0)[0]))
-            if desc.get("musical_mode") and not e2 and b0 == b0 and b0 > 0:
-                # with musical beats in use the beat map (hence dv) counts musical beats; the model's bar length is
-                # beats0 * d with the NOTATED beat count, so hand it the divisions per notated beat (exact rescaling)
-                mb0 = float(part.time_signature_map(0)[2])
-                dv_model = Fraction(dv) * Fraction(mb0) / Fraction(b0)
-                d_tok = W.q(dv_model)
-                dv = float(dv_model)
-            else:
-                d_tok = W.q(dv)
-            if not e2 and b0 == b0:
-                s0, e0 = desc["ms"][0][0], desc["ms"][0][1]
+            ev.requests.append("dpb " + ptok)
+            ev.impl.append("err")
+        else:
+            b0, bm0, dv, bml = r
+            if bm0 == bm0 and bml == bml and abs((1 + bm0) - bml) < 1e-9:
+                stable = False  # one beat reaches exactly the end of the timeline: NaN or not is a matter of rounding
+            if b0 == b0 and dv == dv:
+                s0, e0 = L["ms"][0][0], L["ms"][0][1]
                 pf, pq = b0 * dv, Fraction(b0) * Fraction(dv)
                 if ((e0 - s0) < pf) != ((e0 - s0) < pq):
                     stable = False
                 v = Fraction(e0) - pq
                 if abs((v - math.floor(v)) - Fraction(1, 2)) < Fraction(1, 10 ** 6):
                     stable = False
+            if stable:
+                ev.requests.append("dpb " + ptok)
+                ev.impl.append(("@approx", [_f(b0), _f(dv)], 1e-9))
 
     def emit(name, req, sc, vec, lst, err, approx_k=None):
         """two observations per map: the scalar calls and the array call"""
         for tag, rows in (("s", sc), ("v", vec)):
             if not stable and name in ("measure_map", "measure_number_map", "metrical_position_map"):
                 break
+            if staffless and name == "clef_map":
+                break  # a clef that belongs to no staff: no reading, not modelled
             ev.requests.append(req)
             if rows is None:
                 ev.impl.append("err")
@@ -508,33 +772,58 @@ def evaluate(desc):
                     name, len(lst) if isinstance(lst, list) else -1, len(xs)))
         elif isinstance(err, ShapeError):
             orc.append("scalar-vector: %s: %s" % (name, str(err)[:160]))
-        elif valid and not (name in ("measure_number_map",) and mn_unfillable):
+        elif valid and not (name in ("measure_number_map",) and mn_unfillable) and not (name == "clef_map" and staffless):
             orc.append("raises: %s raised %s: %s" % (name, type(err).__name__, str(err)[:120]))
 
     # does a None measure number survive the one-step back-fill of measure_number_map? (then nothing to report)
-    nums = [m[2] for m in desc["ms"]]
+    nums = [m[2] for m in L["ms"]]
     mn_unfillable = any(n is None and nums[i - 1] is None for i, n in enumerate(nums))
 
     # ---- the six maps
-    ts_s, ts_v, ts_l, ts_e = query_all(lambda: part.time_signature_map, xs, lambda a: canon_float_rows(a, 3))
-    emit("time_signature_map", "ts %s %s %s" % (span_tok, tss_tok, xs_tok), ts_s, ts_v, ts_l, ts_e, 3)
-    ks_s, ks_v, ks_l, ks_e = query_all(lambda: part.key_signature_map, xs, lambda a: canon_float_rows(a, 2))
+    res = {}
+    ts_s, ts_v, ts_l, ts_e = res["time_signature_map"] = query_all(lambda: part.time_signature_map, xs, lambda a: canon_float_rows(a, 3))
+    emit("time_signature_map", "tsE %s %s" % (ptok, xs_tok), ts_s, ts_v, ts_l, ts_e, 3)
+    ks_s, ks_v, ks_l, ks_e = res["key_signature_map"] = query_all(lambda: part.key_signature_map, xs, lambda a: canon_float_rows(a, 2))
     emit("key_signature_map", "ks %s %s %s" % (span_tok, kss_tok, xs_tok), ks_s, ks_v, ks_l, ks_e, 2)
-    cl_s, cl_v, cl_l, cl_e = query_all(lambda: part.clef_map, xs, lambda a: canon_clef(a))
+    cl_s, cl_v, cl_l, cl_e = res["clef_map"] = query_all(lambda: part.clef_map, xs, lambda a: canon_clef(a))
     emit("clef_map", "clef %s %s %s %s" % (span_tok, clefs_tok, others_tok, xs_tok), cl_s, cl_v, cl_l, cl_e)
-    mm_s, mm_v, mm_l, mm_e = query_all(lambda: part.measure_map, xs, canon_mm)
-    emit("measure_map", "mm %s %s %s %s %s" % (span_tok, tss_tok, ms_tok, d_tok, xs_tok), mm_s, mm_v, mm_l, mm_e)
-    mn_s, mn_v, mn_l, mn_e = query_all(lambda: part.measure_number_map, xs, canon_mn)
-    emit("measure_number_map", "mn %s %s %s %s %s" % (span_tok, tss_tok, msn_tok, d_tok, xs_tok), mn_s, mn_v, mn_l, mn_e)
-    mp_s, mp_v, mp_l, mp_e = query_all(lambda: part.metrical_position_map, xs, canon_mp)
-    emit("metrical_position_map", "mp %s %s %s %s %s" % (span_tok, tss_tok, ms_tok, d_tok, xs_tok), mp_s, mp_v, mp_l, mp_e)
+    mm_s, mm_v, mm_l, mm_e = res["measure_map"] = query_all(lambda: part.measure_map, xs, canon_mm)
+    emit("measure_map", "mmP %s %s" % (ptok, xs_tok), mm_s, mm_v, mm_l, mm_e)
+    mn_s, mn_v, mn_l, mn_e = res["measure_number_map"] = query_all(lambda: part.measure_number_map, xs, canon_mn)
+    emit("measure_number_map", "mnP %s %s" % (ptok, xs_tok), mn_s, mn_v, mn_l, mn_e)
+    mp_s, mp_v, mp_l, mp_e = res["metrical_position_map"] = query_all(lambda: part.metrical_position_map, xs, canon_mp)
+    emit("metrical_position_map", "mpP %s %s" % (ptok, xs_tok), mp_s, mp_v, mp_l, mp_e)
+
+    # ---- oracle: an edited part answers like a part freshly built from what is on its timeline
+    if edited:
+        fresh = build(fresh_desc(L))
+        ffp, flp = fresh.first_point, fresh.last_point
+        if (None if ffp is None else (ffp.t, flp.t)) != got_span:
+            orc.append("fresh-build: timeline %s, a fresh build of the same elements has %s" % (
+                got_span, None if ffp is None else (ffp.t, flp.t)))
+        canons = {"time_signature_map": lambda a: canon_float_rows(a, 3), "key_signature_map": lambda a: canon_float_rows(a, 2),
+                  "clef_map": lambda a: canon_clef(a), "measure_map": canon_mm, "measure_number_map": canon_mn,
+                  "metrical_position_map": canon_mp}
+        for nm in MAPS:
+            if not stable and nm in ("measure_map", "measure_number_map", "metrical_position_map"):
+                continue
+            f_s, _, _, f_e = query_all(lambda: getattr(fresh, nm), xs, canons[nm])
+            h_s, _, _, h_e = res[nm]
+            if (f_e is None) != (h_e is None):
+                if valid:
+                    orc.append("fresh-build: %s %s after the history, %s on a fresh build of the same elements" % (
+                        nm, "raises %s" % type(h_e).__name__ if h_e else "answers", "raises %s" % type(f_e).__name__ if f_e else "answers"))
+            elif f_e is None and f_s != h_s:
+                bad = [x for x, a, b in zip(xs, h_s, f_s) if a != b]
+                orc.append("fresh-build: %s(%d) = %s after the history, %s on a fresh build of the same elements" % (
+                    nm, bad[0], h_s[xs.index(bad[0])], f_s[xs.index(bad[0])]))
 
     # ---- oracle: the property statement by direct scan of the elements
-    if valid and fp is not None:
+    if valid and times:
         idx = {x: i for i, x in enumerate(xs)}
-        ts_el = [(e[0], (e[1], e[2], musical_beats(e[1]))) for e in desc["ts"]]
-        ks_el = [(e[0], (e[1], mode_code(e[2]))) for e in desc["ks"]]
-        staffs = [c[1] for c in desc["clefs"] if c[1] is not None] + others
+        ts_el = [(e[0], (e[1], e[2], e[3])) for e in L["ts"]]
+        ks_el = [(e[0], (e[1], mode_code(e[2]))) for e in L["ks"]]
+        staffs = [c[1] for c in L["clefs"] if c[1] is not None] + others
         nst = max([1] + staffs)
         for x in judged:
             i = idx[x]
@@ -548,10 +837,11 @@ def evaluate(desc):
                 got = ks_s[i]
                 if None in got or tuple(got) not in [tuple(float(v) for v in w) for w in want]:
                     orc.append("ks-in-force: key_signature_map(%d) = %s, in force %s" % (x, got, want))
-            if cl_s is not None:
+            if cl_s is not None and not staffless:
                 rows = []
                 for s in range(1, nst + 1):
-                    el = [(c[0], (s, CLEF_CODE[c[2]], c[3], c[4] if c[4] is not None else 0)) for c in desc["clefs"] if c[1] == s]
+                    el = [(c[0], (s, CLEF_CODE[c[2]], c[3] if c[3] is not None else 0, c[4] if c[4] is not None else 0))
+                          for c in L["clefs"] if c[1] == s]
                     rows.append(in_force(el, x) or [(s, CLEF_CODE["none"], 0, 0)])
                 # any combination of acceptable rows
                 got = cl_s[i]
@@ -566,7 +856,7 @@ def evaluate(desc):
                 if not ok:
                     orc.append("clef-in-force: clef_map(%d) = %s, in force per staff %s" % (x, got, rows))
         # measures
-        ms = desc["ms"]
+        ms = L["ms"]
         if not ms:
             for x in judged:
                 i = idx[x]
@@ -576,8 +866,8 @@ def evaluate(desc):
                     orc.append("measure-default: measure_number_map(%d) = %s without measures" % (x, mn_s[i]))
                 if mp_s is not None and mp_s[i] != "(0,0)":
                     orc.append("measure-default: metrical_position_map(%d) = %s without measures" % (x, mp_s[i]))
-        elif measures_ok(desc):
-            first_ok = expected_first_start(desc, first_t, last_t)
+        elif measures_ok(L):
+            first_ok = expected_first_start(L, first_t, last_t)
             ev.info["pickup_judged"] = first_ok is not None
             ev.info["pickup_corrected"] = first_ok is not None and ms[0][0] not in first_ok
             for x in judged:
@@ -609,12 +899,35 @@ def evaluate(desc):
                             orc.append("metrical-position: metrical_position_map(%d) = %s, expected (t-start, length) in %s%s" % (
                                 x, got, want, "" if tiles else " [length not judged: gap follows]"))
 
+        # the three measure maps speak of ONE "measure containing t": where measure_map places x in a measure (a, b),
+        # the number map reports that measure's number and the metrical map the distance from a; where measure_map
+        # has no measure (before the - pickup-corrected - start of the first one) the number map has none either
+        if ms and measures_ok(L) and mm_s is not None and stable:
+            by_end = {m[1]: m for m in ms}
+            for x in judged:
+                i = idx[x]
+                got = mm_s[i]
+                if mn_s is not None and (got == "nan") != (mn_s[i] == "nan"):
+                    orc.append("measure-consistency: measure_map(%d) = %s but measure_number_map(%d) = %s" % (x, got, x, mn_s[i]))
+                if got == "nan":
+                    continue
+                a, b = [int(v) for v in got[1:-1].split(",")]
+                if not (a <= x < b) or b not in by_end:
+                    continue
+                num = by_end[b][2]
+                if mn_s is not None and num is not None and mn_s[i] != "%d" % num:
+                    orc.append("measure-consistency: measure_map(%d) = %s (measure number %d) but measure_number_map(%d) = %s" % (
+                        x, got, num, x, mn_s[i]))
+                if mp_s is not None and not mp_s[i].startswith("(%d," % (x - a)):
+                    orc.append("measure-consistency: measure_map(%d) = %s but metrical_position_map(%d) = %s" % (x, got, x, mp_s[i]))
+
     # ---- note-array columns against the maps at the onsets
-    if desc["notes"] and valid:
-        onsets = {"n%d" % i: n[0] for i, n in enumerate(desc["notes"])}
-        ms = desc["ms"]
+    if L["notes"] and valid and not staffless:
+        onsets = {n[4]: n[0] for n in L["notes"]}
+        staff_of = {n[4]: n[2] for n in L["notes"]}
+        ms = L["ms"]
         inside_all = (not ms) or all(any(m[0] <= t < m[1] for m in ms) for t in onsets.values())
-        inc_mp = inside_all and mp_e is None and measures_ok(desc)
+        inc_mp = inside_all and mp_e is None and measures_ok(L)
         na, e = call(lambda: note_array_from_part(part, include_key_signature=True, include_time_signature=True,
                                                   include_metrical_position=inc_mp, include_staff=True))
         if e:
@@ -631,7 +944,7 @@ def evaluate(desc):
                 mpm = part.metrical_position_map if inc_mp else None
                 col_ts = [[float(rows[i]["ts_beats"]), float(rows[i]["ts_beat_type"]), float(rows[i]["ts_mus_beats"])] for i in ids]
                 col_ks = [[float(rows[i]["ks_fifths"]), float(rows[i]["ks_mode"])] for i in ids]
-                ev.requests.append("ts %s %s %s" % (span_tok, tss_tok, on_tok))
+                ev.requests.append("tsE %s %s" % (ptok, on_tok))
                 ev.impl.append(("@approx", col_ts, 1e-9))
                 ev.requests.append("ks %s %s %s" % (span_tok, kss_tok, on_tok))
                 ev.impl.append(("@approx", col_ks, 1e-9))
@@ -640,12 +953,12 @@ def evaluate(desc):
                         orc.append("note-array: note %s at %d has time-signature columns %s, the map says %s" % (i, t, cts, list(tsm(t))))
                     if [float(v) for v in ksm(t)] != cks:
                         orc.append("note-array: note %s at %d has key-signature columns %s, the map says %s" % (i, t, cks, list(ksm(t))))
-                    st = desc["notes"][int(i[1:])][2]
+                    st = staff_of[i]
                     if int(rows[i]["staff"]) != (st or 0):
                         orc.append("note-array: note %s staff column %d, note staff %r" % (i, int(rows[i]["staff"]), st))
                 if inc_mp and stable:
                     col_mp = ["(%d,%d)" % (int(rows[i]["rel_onset_div"]), int(rows[i]["tot_measure_div"])) for i in ids]
-                    ev.requests.append("mp %s %s %s %s %s" % (span_tok, tss_tok, ms_tok, d_tok, on_tok))
+                    ev.requests.append("mpP %s %s" % (ptok, on_tok))
                     ev.impl.append("[" + ",".join(col_mp) + "]")
                     for i, t, c in zip(ids, on, col_mp):
                         if canon_mp(mpm(t)) != c:
@@ -655,8 +968,10 @@ def evaluate(desc):
 
     nontrivial = any(desc[k] for k in ("ts", "ks", "clefs", "ms", "notes"))
     ev.key = json.dumps(desc, sort_keys=True, default=str) if nontrivial else None
-    ev.info.update({"gen": desc.get("gen"), "n_ms": len(desc["ms"]), "first_t": first_t, "stable": stable,
-                    "positions_judged": len(judged)})
+    ev.info.update({"gen": desc.get("gen"), "n_ms": len(L["ms"]), "first_t": first_t, "stable": stable,
+                    "positions_judged": len(judged), "edited": edited,
+                    "removed": sum(len(desc.get(k, [])) - len(L[k]) for k in KINDS),
+                    "custom_mb": any(e[3] != musical_beats(e[1]) for e in L["ts"]), "musical": L["musical"]})
     return ev
 
 
@@ -665,15 +980,37 @@ def finding_key(desc, failure):
 
 
 def shrink(desc):
+    hist = desc.get("hist", [])
+    for i in range(len(hist)):
+        d = dict(desc)
+        d["hist"] = hist[:i] + hist[i + 1:]
+        yield d
     for k in ("notes", "words", "dirs", "qd", "clefs", "ks", "ts", "ms"):
         l = desc.get(k, [])
         for i in range(len(l)):
             d = dict(desc)
             d[k] = l[:i] + l[i + 1:]
+            if hist:  # the history refers to elements by index
+                h2 = []
+                for op in hist:
+                    if op[0] in ("rm", "add") and op[1] == k:
+                        if op[2] == i:
+                            continue
+                        if op[2] > i:
+                            op = [op[0], op[1], op[2] - 1]
+                    h2.append(op)
+                d["hist"] = h2
+            if d.get("warm") is not None:
+                d["warm"] = None
             yield d
-    if desc.get("rev"):
+    for flag in ("rev", "musical_mode"):
+        if desc.get(flag):
+            d = dict(desc)
+            d[flag] = False
+            yield d
+    if desc.get("warm") is not None:
         d = dict(desc)
-        d["rev"] = False
+        d["warm"] = None
         yield d
 
 
@@ -693,12 +1030,18 @@ def distribution(descs, results):
             c["missing_mode"] += 1
         if d.get("qd"):
             c["quarter_duration_change"] += 1
+        if any(cl[3] is None for cl in d["clefs"]):
+            c["clef_without_line"] += 1
+        for op in d.get("hist", []):
+            c["hist:" + op[0]] += 1
     errs = sum(1 for r in results for x in r["impl"] if x == "err")
     for r in results:
         inf = r.get("info") or {}
-        for k in ("pickup_judged", "pickup_corrected"):
+        for k in ("pickup_judged", "pickup_corrected", "edited", "custom_mb", "musical"):
             if inf.get(k):
                 c[k] += 1
+        if inf.get("removed"):
+            c["with_removed_elements"] += 1
         if inf.get("stable") is False:
             c["pickup_rule_float_unstable(not compared)"] += 1
         if inf.get("first_t"):
